@@ -3,7 +3,7 @@ from checks import both
 CHECK = {
     'level': 'exploration',
     'rule': ('systematic matrix: for every element size {1,2,3,4,8,16,24,64} x constructor/destructor mode {none, both, '
-             'constructor only, destructor only} x start state {never allocated, empty with buffer, cap == size, cap > size} '
+             'constructor only, destructor only, THE SAME function in both roles (classified from the slot\'s own state), roles reversed between two vectors} x start state {never allocated, empty with buffer, cap == size, cap > size} '
              'x {small, few-hundred} contents x {reserve, resize} x every argument class {0, 1, in range, size-1, size, '
              'size+1, cap, cap+1, small, hundreds, large satisfiable, largest below the 64 MiB allocator cap, first above it, '
              'above it, SIZE_MAX/elem-1, SIZE_MAX/elem, SIZE_MAX/elem+1, (n+1)*elem wrapping to a small byte count, 2^62, '
